@@ -1,5 +1,7 @@
 package align
 
+import "math"
+
 
 var vpAlpha = []byte{'A', 'C', 'G'}
 
@@ -226,12 +228,20 @@ func vpInputs0(local bool) (a, b []byte, m SubstitutionMatrix) {
 		return vpSeq("a", n, k), vpSeq("b", mm, k), vpMatrix(k, 8, -8, 8, vpCase("openLo"), vpCase("openHi"))
 	case which == 7:
 		return vpAnySeq("a", n), vpAnySeq("b", mm), Levenshtein
-	case which == 8 || which == 9:
+	case which == 8 || which == 9 || which == 10:
 		// concrete non-integer scores (8: decimal fractions, 9: integers
 		// beyond 2^24 and halves), symbolic sequences: the DP runs on IEEE
 		// binary64 terms (cap "fp")
 		k := vpCase("alpha")
-		return vpSeq("a", n, k), vpSeq("b", mm, k), vpFracMatrix(k, which == 9, local)
+		fm := vpFracMatrix(k, which == 9, local)
+		if which == 10 {
+			// gaps forbidden: every gap score is -Inf
+			for i := 0; i < k; i++ {
+				fm[[2]byte{vpAlpha[i], Gap}] = math.Inf(-1)
+				fm[[2]byte{Gap, vpAlpha[i]}] = math.Inf(-1)
+			}
+		}
+		return vpSeq("a", n, k), vpSeq("b", mm, k), fm
 	}
 	return vpProteinSeq("a", n), vpProteinSeq("b", mm), vpShipped(which)
 }
